@@ -453,6 +453,8 @@ class Prog:
                 return True
             if op in ("from_registry", "setup", "unregister", "try_from_registry", "already_running"):
                 o = {"op": op, "ty": rng.choice(self.types)}
+                if op in ("from_registry", "setup") and rng.random() < self.cancel_p:
+                    o["d"] = 4          # a lookup that is given up while it is under way (lock taken, fresh instance being pinged)
                 if op in ("from_registry", "unregister", "try_from_registry"):
                     nh = self.fresh()
                     o["nh"] = nh
@@ -498,7 +500,7 @@ class Prog:
             if op == "join":
                 o["d"] = rng.choice(self.join_d)
             elif op in ("send", "call", "ping", "await_ref", "try_halt", "halt", "await", "consume") and rng.random() < self.cancel_p:
-                o["d"] = 1          # poll once, drop if still pending
+                o["d"] = rng.choice([1, 1, 4])          # poll once (or up to three times), drop if still pending
             if op in ("send", "call", "force_send"):
                 o["scr"] = self.scripts() if callable(self.scripts) else rng.choice(self.scripts)
             if (op, k) in NEWKIND:
